@@ -204,6 +204,18 @@ class State:
                 notify_vars[var_name] = getattr(notify_vars[f"{parts[0]}.{parts[1]}.old"], parts[3], None)
             elif 1 <= var_name.count(".") <= 3 and not cls.exist(var_name):
                 notify_vars[var_name] = None
+            elif len(parts) in (2, 3):
+                #
+                # not notified yet, so capture the value as of this notification, rather
+                # than fetching it when the expression is evaluated, which could be after
+                # later changes when several state variables are set quickly
+                #
+                state = cls.hass.states.get(f"{parts[0]}.{parts[1]}")
+                if state is not None:
+                    if len(parts) == 2:
+                        notify_vars[var_name] = StateVal(state)
+                    elif parts[2] in state.attributes or parts[2] in STATE_VIRTUAL_ATTRS:
+                        notify_vars[var_name] = getattr(StateVal(state), parts[2])
         return notify_vars
 
     @classmethod
